@@ -20,6 +20,10 @@ RECURSIVE CountData(_, _)
 CountData(file, upto) ==   \* number of non-blank records among records 0..upto
   IF upto < 0 THEN 0 ELSE CountData(file, upto - 1) + (IF file[upto + 1] = <<>> THEN 0 ELSE 1)
 
+\* LineMonitor reports -1 (not 0) while no data record has been seen yet (IMPL; only observable from a
+\* last() action fired on a blank final record of a file without data)
+LmCount(c) == IF c = 0 THEN -1 ELSE c
+
 FirstData(file) == IF \E j \in 1..Len(file) : file[j] # <<>>
                      THEN file[CHOOSE j \in 1..Len(file) : file[j] # <<>> /\ \A m \in 1..(j-1) : file[m] = <<>>]
                      ELSE <<>>
@@ -46,15 +50,17 @@ InitS(case) == [st |-> InitSt, returned |-> <<>>, unmatched |-> <<>>,
 Ctx(case, k) ==
   LET file == case.file N == Len(file) IN
   [line |-> file[k + 1], headers |-> HeadersOf(file), k |-> k,
-   dataCount |-> CountData(file, k), endNum |-> N - 1,
+   dataCount |-> LmCount(CountData(file, k)), endNum |-> N - 1,
    lastScan |-> IsLastScanLine(case.prog.scan, k, N),
-   totalData |-> CountData(file, N - 1), AND |-> case.cfg.AND, comps |-> case.prog.comps]
+   totalData |-> LmCount(CountData(file, N - 1)), AND |-> case.cfg.AND, comps |-> case.prog.comps]
 
 \* _consider_line: returns [st, ret] where ret is what next() uses to decide to yield
 Consider(case, st, k) ==
   LET file == case.file  N == Len(file)  line == file[k + 1]  ctx == Ctx(case, k) IN
   IF k = N - 1 /\ line = <<>> THEN \* the path is frozen first, so a Matcher built only now cannot initialise variables any more
-       [st |-> [st EXCEPT !.frozen = TRUE, !.built = TRUE], ret |-> FALSE, kind |-> "blanklast"]
+       [st |-> DoLasts(1, [st EXCEPT !.frozen = TRUE, !.built = TRUE,
+                                    !.memo = [j \in 1..Len(ctx.comps) |-> "n"]], ctx),
+        ret |-> FALSE, kind |-> "blanklast"]
   ELSE IF line = <<>> THEN [st |-> st, ret |-> FALSE, kind |-> "blank"]
   ELSE IF ~In(case.prog.scan, k) THEN [st |-> st, ret |-> FALSE, kind |-> "unscanned"]
   ELSE
